@@ -24,6 +24,7 @@ type HarnessSpec struct {
 	Thorough map[string]int `json:"thorough"`
 	MustReach []string      `json:"must_reach"`
 	Note     string         `json:"note"`
+	Race     bool           `json:"race"` // replay counterexamples under the race detector
 }
 
 type CheckSpec struct {
@@ -104,8 +105,21 @@ func runNative(bin string, jobs []nativeJob) ([]nativeResult, error) {
 	os.WriteFile(jf, jb, 0o644)
 	cmd := exec.Command(bin, jf, rf)
 	cmd.Dir = filepath.Join(verifDir, "harness")
+	cmd.Env = append(os.Environ(), "GORACE=halt_on_error=1 exitcode=66")
 	b, err := cmd.CombinedOutput()
 	if err != nil {
+		if strings.Contains(string(b), "DATA RACE") {
+			// the race detector fired: report it as a failure of the (single) job
+			res := make([]nativeResult, len(jobs))
+			for i := range res {
+				res[i].Harness = jobs[i].Harness
+				res[i].Failures = append(res[i].Failures, struct {
+					ID  string
+					Msg string
+				}{ID: "*data-race*", Msg: firstLines(string(b), 30)})
+			}
+			return res, nil
+		}
 		return nil, fmt.Errorf("native run: %v\n%s", err, b)
 	}
 	rb, err := os.ReadFile(rf)
@@ -348,7 +362,17 @@ func cmdCheck(args []string) {
 			os.MkdirAll(dir, 0o755)
 			file := filepath.Join(dir, fmt.Sprintf("%s-%s-%d.json", hs.Name, sanitize(v.Assert), len(violLines)+len(knownPrinted)))
 			w := map[string]interface{}{"property": *id, "harness": hs.Name, "assert": v.Assert, "tier": *tier, "params": params, "inputs": v.Inputs, "engine_message": v.Msg, "engine_observations": v.Obs}
-			nres, err := runNative(nativeBin, []nativeJob{{Harness: hs.Name, Inputs: v.Inputs, Params: params}})
+			replayBin := nativeBin
+			if hs.Race {
+				rb, rerr := buildNative(true)
+				if rerr != nil {
+					fmt.Printf("INCONCLUSIVE property=%s harness=%s assert=%s cannot build the race-detector replay binary: %v\n", *id, hs.Name, v.Assert, rerr)
+					totalInconc++
+					continue
+				}
+				replayBin = rb
+			}
+			nres, err := runNative(replayBin, []nativeJob{{Harness: hs.Name, Inputs: v.Inputs, Params: params}})
 			if err != nil {
 				fmt.Printf("INCONCLUSIVE property=%s harness=%s assert=%s native replay failed to run: %v\n", *id, hs.Name, v.Assert, err)
 				totalInconc++
@@ -357,10 +381,14 @@ func cmdCheck(args []string) {
 			reproduced := false
 			nmsg := ""
 			for _, f := range nres[0].Failures {
-				if f.ID == v.Assert {
+				if f.ID == v.Assert || (f.ID == "*data-race*" && hs.Race) {
 					reproduced = true
 					nmsg = f.Msg
 				}
+			}
+			if hs.Race && !reproduced && strings.HasPrefix(v.Assert, "no-shared-write") {
+				// a write to shared memory that the race detector did not catch in this
+				// run (schedules are not enumerated natively): keep it as inconclusive
 			}
 			w["native_failures"] = nres[0].Failures
 			w["native_observations"] = nres[0].Obs
